@@ -26,7 +26,11 @@ fn harness_error(msg: &str) -> ! {
 }
 
 fn build_env() -> Env {
-    let cat = catalogue::catalogue(protosim::generated::PROGRAM_SEED, protosim::generated::N_GEN);
+    let cat = if protosim::generated::UNIFORM {
+        catalogue::uniform(protosim::generated::PROGRAM_SEED, protosim::generated::N_GEN)
+    } else {
+        catalogue::catalogue(protosim::generated::PROGRAM_SEED, protosim::generated::N_GEN)
+    };
     let runners = protosim::generated::runners();
     if cat.programs.len() != runners.len()
         || cat.programs.len() != protosim::generated::N_PROGRAMS
@@ -397,7 +401,7 @@ fn cmd_check(env: &Env, prop: Prop, args: &[String]) -> i32 {
             "faults_and_answers": faults,
             "reach_probes": probes,
             "counters": other,
-            "catalogue": {"program_seed": protosim::generated::PROGRAM_SEED, "generated_types": protosim::generated::N_GEN, "types": env.cat.types.len(), "programs": env.cat.programs.len()},
+            "catalogue": {"program_seed": protosim::generated::PROGRAM_SEED, "generated_types": protosim::generated::N_GEN, "types": env.cat.types.len(), "programs": env.cat.programs.len(), "uniform_fallback": protosim::generated::UNIFORM},
             "components": {
                 "real": ["deserr container impls (src/impls.rs)", "derive output (derive/src)", "serde_json bridge (src/serde_json.rs)", "serde_cs bridge", "JsonError", "QueryParamError"],
                 "simulated": ["value source (SimValue: delivery order, remove discipline, duplicates, exotic values)", "error type (SimErr/SimErrB: scripted Continue/Break answers)", "leaf deserializer (Probe)", "user callbacks (from/try_from/map/validate/missing_field_error/deny_unknown_fields)"]
